@@ -88,7 +88,14 @@ package pqueue
 //@   ensures[wf] pqWf(*pq)
 //@   ensures[members] result0 != nil && gm != result0 ==> (pqMember(*pq, len(*pq), gm) <==> old(pqMember(*pq, len(*pq), gm)))
 //@   ensures[others] result0 != nil && gm != result0 && !old(pqMember(*pq, len(*pq), gm)) ==> gm.Index == old(gm.Index)
+//   (area K) an entry is handed out only from a non-empty queue
+//@   ensures[was-non-empty] result0 != nil ==> old(len(*pq)) >= 1
+//   (area K) nothing new enters the queue: every entry left was an entry before
+//@   ensures[no-new-entries] forall k int :: {(*pq)[k]} 0 <= k && k < len(*pq) ==> old(pqMember(*pq, len(*pq), now((*pq)[k])))
 //@   modifies *pq, elems(*pq), Item.Index
+//   (area K) ghosts of the deferred timeout scan, declared in nsqd/zz_contracts_kchannel_verif.go
+//@   onreturn kDefShifts := kDefShifts + (result0 != nil ? 1 : 0)
+//@   onreturn kDefShifted := (result0 != nil ? result0 : kDefShifted)
 
 // ---------------------------------------------------------------------------------------------
 // container/heap on *PriorityQueue (ASSUMED library contracts; they live in this file rather than in a
@@ -111,6 +118,8 @@ package pqueue
 //@   ensures[added] pqMember(*hq(h), len(*hq(h)), it(x))
 //@   ensures[members] gm != it(x) ==> (pqMember(*hq(h), len(*hq(h)), gm) <==> old(pqMember(*hq(h), len(*hq(h)), gm)))
 //@   ensures[others] gm != it(x) && !old(pqMember(*hq(h), len(*hq(h)), gm)) ==> gm.Index == old(gm.Index)
+//   (area K) the heap algorithms only permute: every entry afterwards is x or was an entry before
+//@   ensures[no-new-entries] forall k int :: {(*hq(h))[k]} 0 <= k && k < len(*hq(h)) ==> (*hq(h))[k] == it(x) || old(pqMember(*hq(h), len(*hq(h)), now((*hq(h))[k])))
 //@   modifies *hq(h), elems(*hq(h)), Item.Index
 
 //@ extern container/heap.Remove(h, i) (x)
@@ -121,6 +130,7 @@ package pqueue
 //@   ensures pqWf(*hq(h)) && len(*hq(h)) == old(len(*hq(h))) - 1
 //@   ensures[members] gm != it(x) ==> (pqMember(*hq(h), len(*hq(h)), gm) <==> old(pqMember(*hq(h), len(*hq(h)), gm)))
 //@   ensures[others] gm != it(x) && !old(pqMember(*hq(h), len(*hq(h)), gm)) ==> gm.Index == old(gm.Index)
+//@   ensures[no-new-entries] forall k int :: {(*hq(h))[k]} 0 <= k && k < len(*hq(h)) ==> old(pqMember(*hq(h), len(*hq(h)), now((*hq(h))[k])))
 //@   modifies *hq(h), elems(*hq(h)), Item.Index
 
 // heap.Pop = Remove(h, 0): the minimum.
